@@ -681,6 +681,14 @@ class Phase(Angle):
         # below but work on single doubles; use the full precision instead.
         if function in {np.ptp, np.sort, np.argsort} and args and args[0] is self:
             return getattr(self, function.__name__)(*args[1:], **kwargs)
+        if function in {np.array_equal, np.array_equiv} and len(args) == 2:
+            # numpy would compare single doubles.
+            try:
+                if function is np.array_equal and np.shape(args[0]) != np.shape(args[1]):
+                    return False
+                return bool(np.all(np.equal(args[0], args[1])))
+            except Exception:
+                return False
         return super().__array_function__(function, types, args, kwargs)
 
     def ptp(self, axis=None, out=None, keepdims=False):
@@ -784,6 +792,13 @@ class Phase(Angle):
                     function(phases[0]["frac"], phases[1]["frac"]),
                     out=phase_out,
                 )
+
+        elif function in COMPARISON_UFUNCS and method == "outer" and len(inputs) == 2:
+            # Compare every element of the first with every element of the second
+            # through the exact route below.
+            first, second = inputs
+            first = first[(...,) + (np.newaxis,) * np.ndim(second)]
+            return function(first, second, **kwargs)
 
         elif function in COMPARISON_UFUNCS and basic:
             phases = list(inputs)
